@@ -408,6 +408,42 @@ def depthFirstOrbit (iso : BMat → BMat → Bool) (fuel : Nat) (g : BMat) : Exc
     | .error e => .error e
     | .ok gs => .ok (pathSet, gs)
 
+/-! ## metric-guided LC walks (utils/preprocessing.py) -/
+
+/-- `_select_graphs(candidate_graphs, new_graph, limit, metric_value)` -/
+def selectGraphs (cands : List (Float × BMat)) (g : BMat) (limit : Nat) (val : Float) : List (Float × BMat) :=
+  if cands.length < limit then cands ++ [(val, g)]
+  else
+    match cands.findIdx? (fun c => decide (val < c.1)) with
+    | some i => (pyInsert cands i (val, g)).dropLast
+    | none => cands
+
+/-- `np.argwhere(counts == np.amax(counts))`: the vertices with the largest count, ascending -/
+def maxNodes (n : Nat) (score : Nat → Nat) : List Nat :=
+  let mx := (List.range n).foldl (fun m v => max m (score v)) 0
+  filterTo n fun v => score v == mx
+
+/-- `_count_n_neighbor_edges(adj)[v]`: `int(count_nonzero(adj[nb][:, nb]) / 2)` -/
+def neighborEdges (n : Nat) (A : Adj) (v : Nat) : Nat :=
+  let nb := filterTo n fun j => A v j
+  (nb.foldl (fun acc a => acc + (nb.filter fun b => A a b).length) 0) / 2
+
+/-- one trial of the walk: complement every candidate at each of its top-scoring vertices, then feed the results to
+    `_select_graphs` in order -/
+def lcWalkTrial (nodeScore : BMat → Nat → Nat) (metric : BMat → Float) (limit : Nat) (cands : List (Float × BMat)) :
+    List (Float × BMat) :=
+  let tmp : List BMat := cands.flatMap fun c => (maxNodes c.2.r (nodeScore c.2)).map fun v => lcStep c.2 v
+  tmp.foldl (fun acc g => selectGraphs acc g limit (metric g)) cands
+
+/-- `get_lc_graph_by_max_edge` (`nodeScore` = degree) / `get_lc_graph_by_max_neighbor_edge` (`nodeScore` = edges among the
+    neighbours); `metric` is the caller's `graph_metric` -/
+def lcWalk (nodeScore : BMat → Nat → Nat) (metric : BMat → Float) (g : BMat) (limit trials : Nat) : Except Err (List (Float × BMat)) :=
+  if g.r = 0 then .error .value     -- `np.amax` of an empty array
+  else .ok ((List.range trials).foldl (fun acc _ => lcWalkTrial nodeScore metric limit acc) [(metric g, g)])
+
+def degreeScore (g : BMat) (v : Nat) : Nat := degree g.r g.f v
+def neighborEdgeScore (g : BMat) (v : Nat) : Nat := neighborEdges g.r g.f v
+
 /-! ## isomorph finder -/
 
 def factorial : Nat → Nat
@@ -455,8 +491,9 @@ def labelFinder (nLabel nNode : Nat) (labelSet : Option (List (List Nat))) (exha
   if nLabel > nMax then .error .assertion
   else if nNode < 8 ∨ exhaustive then
     -- `rng.choice(perm[1:], n_label - 1)`; `n_label = 0` would ask for -1 samples (ValueError)
-    if nLabel = 0 then .error .value
-    else if nMax = 1 then .error .value     -- `perm[1:]` is empty: `choice` gives a 1-D array and `concatenate` fails
+    -- `len(perm) > 1` is false for at most one vertex: no sampling, only the identity labelling (repository commit edab176)
+    if nMax = 1 then .ok ([List.range nNode], 0)
+    else if nLabel = 0 then .error .value
     else .ok (List.range nNode :: draws.take (nLabel - 1), nLabel - 1)
   else
     .ok (labelSetLoop nLabel thr (thr + 1) (set0Of labelSet nNode) 0 draws)
